@@ -138,7 +138,9 @@ func (d *depsCase) runBody(owner string, ctx context.Context) (ret error) {
 		return nil
 	case "err":
 		var err error
-		if b.Out.Code == -1 {
+		if b.Out.Code == -1 && b.Out.Msg == context.Canceled.Error() {
+			err = context.Canceled // the very value a cancelled context reports: still an ordinary failure of the dependency
+		} else if b.Out.Code == -1 {
 			err = errors.New(b.Out.Msg)
 		} else {
 			err = mg.Fatal(b.Out.Code, b.Out.Msg)
@@ -227,6 +229,9 @@ func genDepsProgram(r *rng.R, nkeys, nroots int, fatalZero bool) map[string]*dBo
 		}
 		if b.Out.Kind != "ok" && r.Chance(1, 6) {
 			b.Out.Msg = "" // a failure without text: mg.Fatal(code), errors.New(""), panic("")
+		}
+		if b.Out.Kind == "err" && r.Chance(1, 4) {
+			b.Out.Code, b.Out.Msg = -1, context.Canceled.Error() // fails with context.Canceled itself (some roots run with cancelled contexts)
 		}
 		if b.Sig == 2 && b.Out.Kind == "err" {
 			b.Out.Kind = "panicErr" // a func(int) cannot return an error
